@@ -35,6 +35,15 @@ class RefTemplate:
         self.nodes = nodes
         self.defaults = defaults
 
+    def __call__(self, client=None, md=None, **kw):
+        """called from an expression on the caller's namespace (`_`): its
+        defaults, then the client(s), then the keyword arguments on top"""
+        if not isinstance(md, _Underscore):
+            raise TypeError('reference templates are called with _ only')
+        clients = () if client is None else (
+            client if isinstance(client, tuple) else (client,))
+        return md._i.call_template(self, clients=clients, kw=kw)
+
 
 # -- frames -------------------------------------------------------------------
 
@@ -251,11 +260,17 @@ class Interp:
         return eval(code, {'__builtins__': SAFE_BUILTINS}, _Env(self))
 
     # -- template calls
-    def call_template(self, t, top=None):
+    def call_template(self, t, top=None, clients=(), kw=None):
         """Sub-template call: caller's stack + its defaults on top."""
         pushed = 0
         if t.defaults:
             self.stack.append(DictFrame(t.defaults))
+            pushed += 1
+        for c in clients:
+            self.stack.append(ObjFrame(c))
+            pushed += 1
+        if kw:
+            self.stack.append(DictFrame(kw))
             pushed += 1
         self.level += 1
         try:
